@@ -127,7 +127,11 @@ func (k *Keyring) RemoveKey(key []byte) error {
 	}
 	for i, installedKey := range k.keys {
 		if bytes.Equal(key, installedKey) {
-			keys := append(k.keys[:i], k.keys[i+1:]...)
+			// Build the shortened list in fresh storage: appending to
+			// k.keys[:i] in place would rewrite the backing array of the
+			// slice handed out earlier by GetKeys, under readers that hold
+			// it without the lock (e.g. decryptPayload).
+			keys := append(k.keys[:i:i], k.keys[i+1:]...)
 			k.installKeysLocked(keys, k.keys[0])
 		}
 	}
